@@ -2,3 +2,5 @@ import RevalModel.Prim.Basic
 import RevalModel.Prim.Num
 import RevalModel.Prim.DecTime
 import RevalModel.Impl.Eval
+import RevalModel.Spec.OperatorTable
+import RevalModel.Impl.RuleSet
